@@ -134,6 +134,9 @@ def match_known(pid, function, info):
         for arg, prefix in m.get("arg_prefix", {}).items():
             if not str((info.get("args") or {}).get(arg, "")).startswith(prefix):
                 ok = False
+        for arg, sub in m.get("arg_contains", {}).items():
+            if sub not in str((info.get("args") or {}).get(arg, "")):
+                ok = False
         if ok:
             return k
     return None
